@@ -94,6 +94,14 @@ Proof.
   - inversion H; subst. econstructor; eauto.
 Qed.
 
+Lemma cs_submit_g_spec : forall s p t i r, cs_submit_g s p t i = Some r ->
+  (foreign s t = true -> pshut p = false) /\ cs_submit p (Nat.eqb t (own s)) i = Some r.
+Proof.
+  unfold cs_submit_g. intros s p t i r H. destruct (foreign s t); simpl in H.
+  - destruct (pshut p); try discriminate. auto.
+  - split; auto. intros X; discriminate X.
+Qed.
+
 Lemma cs_needed_spec : forall p p' e, cs_needed p = (p', e) ->
   (pidle p = [] /\ pstarted p < pmax p /\ p' = p_set_started (pstarted p + 1) p /\ e = [FCreate]) \/
   ((pidle p <> [] \/ pmax p <= pstarted p) /\ p' = p /\ e = []).
